@@ -75,6 +75,8 @@ func oracleFor(op *Sexp, res string) []string {
 		return []string{"panic: " + lastPanic}
 	}
 	switch op.head() {
+	case "sched":
+		return oracleSched(op, res)
 	case "descjson":
 		return oracleDescJSON(op, res)
 	case "jsonout":
